@@ -265,10 +265,13 @@ def monitor_script(prop_mod, script_text, builds, wd, res, shard_desc, timeout=6
         logtext = open(lp).read() if os.path.exists(lp) else ""
         recs = parse_script(script_text)
         ended, open_ids = apply_log(recs, logtext, bname)
+        partial = False
         if rc is None:
+            # inconclusive for whatever did not run; the records completed before the watchdog fired are observations
+            # like any other and are judged below
             res.inconclusive.append("watchdog: driver (%s) exceeded %ds on shard %s" % (bname, timeout, shard_desc))
-            continue
-        if rc != 0 or not ended:
+            partial = True
+        elif rc != 0 or not ended:
             # the process died inside an operation: that operation stays open and is reported
             if open_ids:
                 r = recs[open_ids[0]]
@@ -283,7 +286,8 @@ def monitor_script(prop_mod, script_text, builds, wd, res, shard_desc, timeout=6
         j = judge or prop_mod.judge
         for r in recs.values():
             if r.status == "missing":
-                res.inconclusive.append("op %d has no record in the %s log" % (r.id, bname))
+                if not partial:
+                    res.inconclusive.append("op %d has no record in the %s log" % (r.id, bname))
                 continue
             if r.status == "bad" and "not_set" in (r.cat or "") and _dep_failed(r, recs):
                 continue  # operand is the value of a call that (legitimately or not) produced none; judged there
